@@ -12,6 +12,10 @@
 (*                and every canvas is kept: canvases built on the cached canvas of the      *)
 (*                inner widget share its parts; copying on apply keeps every held canvas    *)
 (*                right, writing the map into the shared parts (the wrong design) does not. *)
+(*  ASSUME (constant level, evaluated once per run): palette instances, hexadecimal        *)
+(*                colours, and the three ways to write a high-colour field (absent / given  *)
+(*                without a colour / a colour) over every small entry x depth, with the     *)
+(*                reading "an empty field inherits the basic colour" refuted.               *)
 (* The Wrong* invariants state deliberately wrong readings and must be REFUTED.             *)
 EXTENDS AttrFlowOps
 
@@ -182,7 +186,7 @@ ASSUME RefutedWithinSmallBounds == WrongReadingsRefuted      \* checked once by 
 PE(name, fgc, bgc, hasfh, fghc, hasbh, bghc, largeh) ==
   [name |-> name, alias |-> FALSE, like |-> 0, mono |-> <<4>>, fg |-> <<fgc, <<1>>>>, bg |-> bgc,
    hasfh |-> hasfh, fgh |-> <<<<fghc, <<>>>>, <<fghc + 1, <<>>>>, <<fghc + 2, <<3>>>>>>, hasbh |-> hasbh,
-   bgh |-> <<bghc, bghc + 1, bghc + 2>>, largeh |-> largeh, fghc |-> NumC, bghc |-> NumC]
+   bgh |-> <<bghc, bghc + 1, bghc + 2>>, largeh |-> largeh, fghc |-> NumC, bghc |-> NumC, fghe |-> FALSE, bghe |-> FALSE]
 AL(name, like) == [PE(name, 0, 0, FALSE, 0, FALSE, 0, FALSE) EXCEPT !.alias = TRUE, !.like = like]
 Pal1 == <<PE(1, 9, 4, TRUE, 1016, TRUE, 1100, FALSE), AL(2, 1), PE(3, 2, -1, FALSE, 0, TRUE, 1017, TRUE), AL(1, 3), AL(4, 2)>>
 PaletteLawsHold ==
@@ -197,6 +201,43 @@ PaletteLawsHold ==
   /\ ResolvePen(Pal1, 7, 256) = DefaultP /\ ResolvePen(Pal1, None, 16) = DefaultP  \* undefined names: the default
   /\ \A d \in {1, 16, 88, 256, TrueDepth} : ResolvePen(Pal1, 4, d) = ResolvePen(<<Pal1[1]>>, 1, d)
 ASSUME PaletteLaws == PaletteLawsHold
+
+(* ---- the three ways to write a high-colour field: absent (None), given without a colour ('' / settings only), a colour ---- *)
+\* every entry over a basic foreground / background in {default, a colour}, basic settings {} / {bold}, and each high field
+\* written in each way ("n" absent, "e" the empty string, "s" settings only, "d" the name 'default', "c" a colour)
+HForm(e, fh, bh) ==
+  [e EXCEPT !.hasfh = fh # "n", !.fghe = fh \in {"e", "s"},
+            !.fgh = LET c == IF fh = "c" THEN 1100 ELSE IF fh = "d" THEN -1 ELSE 0
+                        f == IF fh = "s" THEN <<4>> ELSE <<>>
+                    IN <<<<c, f>>, <<c, f>>, <<c, f>>>>,
+            !.hasbh = bh # "n", !.bghe = bh = "e",
+            !.bgh = LET c == IF bh = "c" THEN 1017 ELSE IF bh = "d" THEN -1 ELSE 0 IN <<c, c, c>>]
+HEntries == {HForm([PE(6, f, b, FALSE, 0, FALSE, 0, FALSE) EXCEPT !.fg = <<f, fl>>], fh, bh) :
+               f \in {-1, 11}, b \in {-1, 1}, fl \in {<<>>, <<1>>}, fh \in {"n", "e", "s", "d", "c"}, bh \in {"n", "e", "d", "c"}}
+HighDepths == {88, 256, TrueDepth}
+HighFieldLawsHold ==
+  /\ \A e \in HEntries :
+       /\ PenFor(e, 1) = [fg |-> -1, bg |-> -1, fl |-> SeqSet(e.mono)]          \* the high fields do not count below 88 colours
+       /\ PenFor(e, 16) = BasicPen(e)
+       /\ \A d \in HighDepths : LET p == PenFor(e, d) IN
+            /\ (~e.hasfh => p.fg = e.fg[1] /\ p.fl = SeqSet(e.fg[2]))           \* absent: colour and settings of the basic field
+            /\ (~e.hasbh => p.bg = e.bg)
+            /\ (e.hasfh /\ e.fghe => p.fg = -1 /\ p.fl = SeqSet(e.fgh[1][2]))   \* given without a colour: the terminal's own colour
+            /\ (e.hasbh /\ e.bghe => p.bg = -1)
+            /\ (e.hasfh /\ ~e.fghe => p.fg = e.fgh[1][1])
+            /\ (e.hasbh /\ ~e.bghe => p.bg = e.bgh[1])
+  \* '' and 'default' are two spellings of one thing
+  /\ \A e \in HEntries : \A d \in HighDepths :
+       /\ PenFor(HForm(e, "e", "e"), d) = PenFor(HForm(e, "d", "d"), d)
+       /\ PenFor(HForm(e, "e", "e"), d) = DefaultP
+  \* the wrong reading "an empty field is an absent field" is told apart exactly where the basic field says something
+  /\ \A e \in HEntries : \A d \in {1, 16} : PenForEmptyInherits(e, d) = PenFor(e, d)
+  /\ \A e \in HEntries : \A d \in HighDepths :
+       (PenForEmptyInherits(e, d) # PenFor(e, d))
+         <=> \/ (e.hasfh /\ e.fghe /\ e.fgh[1][2] = <<>> /\ (e.fg[1] # -1 \/ e.fg[2] # <<>>))
+             \/ (e.hasbh /\ e.bghe /\ e.bg # -1)
+  /\ \E e \in HEntries : PenForEmptyInherits(e, 256) # PenFor(e, 256)
+ASSUME HighFieldLaws == HighFieldLawsHold
 
 (* ---- hexadecimal RGB colours: documented examples, and the reduction of '#rrggbb' ---- *)
 HexEntry(fc, bc) == [PE(5, 9, 4, TRUE, 1016, TRUE, 1100, FALSE) EXCEPT !.fghc = fc, !.bghc = bc]
